@@ -266,6 +266,10 @@ def run(M, rep, tier, only=None):
                 if rt[0] == "tuple":
                     bad = (p, "a range is returned without both index lookups")
                     break
+                if rt == ("const", None):
+                    bad = (p, "the interval is reported empty although no index lookup failed (%d of 2 lookups made): 'empty' must mean "
+                              "that no sample lies in the interval" % len(calls))
+                    break
                 continue
             cs, ce = calls[0], calls[1]
 
@@ -276,8 +280,13 @@ def run(M, rep, tier, only=None):
             ps_, pe_ = arg(cs, "position", 0), arg(ce, "position", 0)
             ms_, me_ = arg(cs, "mode", 1), arg(ce, "mode", 1)
             if rt == ("const", None):
-                # must be the start > end row
-                gt = [(a, v) for a, v in p.decisions if a[0] == "ord"]
+                # must be the start > end row: decided by comparing the two lookup results
+                res = {("call", c_.op) for c_ in (cs, ce)}
+                gt = [(a, v) for a, v in p.decisions if a[0] == "ord" and all(
+                    any(x and x[0] == "call" and x[1] == io.qual for x in subterms(sd_)) for sd_ in (a[1], a[2]))]
+                if not gt:
+                    bad = (p, "the interval is reported empty after two successful lookups without comparing start and end index")
+                    break
                 continue
             if rt[0] != "tuple" or len(rt[1]) != 2:
                 bad = (p, "unexpected result %s" % show(rt))
